@@ -262,6 +262,9 @@ pub(crate) fn change_with_header(header: Header) -> crate::storage::Change<'stat
     }
 }
 
+// Change::verify_ops (start_op must fit the 32-bit op counter) cannot be harnessed: iter_ops trips the
+// Kani 0.68 internal compiler error at kani-compiler/src/intrinsics.rs:243, which aborts the whole crate.
+
 /// A compressed change chunk is valid only if the checksum stored in the OUTER (compressed) header
 /// equals the checksum of the inflated change AND that checksum matches the hash of the inflated
 /// change: Chunk::checksum_valid on CompressedChange, for every hash, every pair of stored checksums.
